@@ -560,7 +560,8 @@ def handle_fstring_progs(state: TokenizerState, endprog: EndProg) -> Iterator[To
         state.pop_mode()
     else:  # "{" or "}"
         middle_end = end - 1
-        if (middle_end > state.pos) or (endprog.text):  # has buffer
+        # has buffer; like CPython, the text before the brace that closes a format spec is a token even when empty
+        if (middle_end > state.pos) or (endprog.text) or (endmatch.lastgroup == "RBrace"):
             yield state.prog_token(middle_end, Token.FSTRING_MIDDLE)
         if endmatch.lastgroup == "LBrace":
             yield TokenInfo(
